@@ -206,9 +206,9 @@ CHECKS.update({
              "runs": {"quick": 4800, "thorough": 80000}},
             {"family": "xfer", "mode": "jsonvalid", "cfgs": {"quick": ["A", "B"], "thorough": ALL_CFGS},
              "runs": {"quick": 15000, "thorough": 240000}},
-            {"family": "xfer", "mode": "token", "cfgs": {"quick": ["A", "B"], "thorough": ALL_CFGS},
+            {"family": "xfer", "mode": "token", "cfgs": {"quick": ["A", "B", "L"], "thorough": ALL_CFGS + ["L", "M"]},
              "runs": {"quick": 18000, "thorough": 240000}},
-            {"family": "xfer", "mode": "dialect", "cfgs": {"quick": ["A", "B", "E"], "thorough": ALL_CFGS},
+            {"family": "xfer", "mode": "dialect", "cfgs": {"quick": ["A", "B", "E", "L", "M"], "thorough": ALL_CFGS + ["L", "M"]},
              "runs": {"quick": 18000, "thorough": 240000}},
         ],
         "probes": ["fault.prefix_positions", "code.InvalidInput", "code.IncompleteInput", "code.EmptyInput"],
